@@ -24,8 +24,9 @@ const (
 	bFail    = "Fail"
 	bFailNow = "FailNow"
 	bPanic   = "panic"
-	bBlock   = "block"  // body only: never returns (completion-timeout ending)
-	bGoexit  = "Goexit" // body only: runtime.Goexit, what FailNow of a standard library testing.T does
+	bPanicE  = "panic(error)" // the panic value is an error (what a runtime error is, too)
+	bBlock   = "block"        // body only: never returns (completion-timeout ending)
+	bGoexit  = "Goexit"       // body only: runtime.Goexit, what FailNow of a standard library testing.T does
 )
 
 type iter struct {
@@ -59,6 +60,8 @@ func act(t *f1testing.T, b string) {
 		t.FailNow()
 	case bPanic:
 		panic("scripted panic")
+	case bPanicE:
+		panic(fmt.Errorf("scripted panic with an error value"))
 	case bGoexit:
 		runtime.Goexit()
 	}
@@ -121,7 +124,7 @@ func (p program) spec() *hlib.RunSpec {
 	return rs
 }
 
-func stops(b string) bool { return b == bFailNow || b == bPanic || b == bGoexit }
+func stops(b string) bool { return b == bFailNow || b == bPanic || b == bPanicE || b == bGoexit }
 
 func check(r *hlib.Rec, p program) {
 	r.Eval()
@@ -350,8 +353,8 @@ func suiteSetup(full bool) hlib.Suite {
 			{{before: []string{bOK, bPanic}, outcome: bFailNow, after: []string{bOK}}, {before: []string{bFailNow}, outcome: bOK}},
 			{{outcome: bPanic}, {before: []string{bOK}, outcome: bFail, after: []string{bPanic}}, {outcome: bOK}},
 		}
-		for _, setup := range []string{bOK, bFail, bFailNow, bPanic} {
-			for _, sc := range lists([]string{bOK, bFail, bFailNow, bPanic}, 2) {
+		for _, setup := range []string{bOK, bFail, bFailNow, bPanic, bPanicE} {
+			for _, sc := range lists([]string{bOK, bFail, bFailNow, bPanic, bPanicE}, 2) {
 				for _, its := range bodies {
 					for _, mode := range []string{"constant", "users"} {
 						for _, ending := range []string{"duration", "limit", "cancel", "timeout", "cancel-in-setup"} {
